@@ -19,9 +19,17 @@ NA = {
  "C19": "'order-insensitive' refers to the order written in the file (an input permutation); Go's iteration order of the matrix maps cannot change a verdict, and C02 explores it regardless (DESIGN.md section 5)",
 }
 
-PENDING = {p: "claimed in DESIGN.md; its check is still under construction in this commit, so nothing is claimed yet" for p in ["C01","C02","C09","C10","C15","C20"]}
+PENDING = {p: "claimed in DESIGN.md; its check is still under construction in this commit, so nothing is claimed yet" for p in ["C01","C10","C15","C20"]}
 
 CHECKS = {
+ "C02": dict(
+   level=("exploration", "Seeded search over generated multi-repository worlds x map-iteration orders at every instrumented range-over-map site x goroutine schedules of LintFiles x NumCPU x repeated execution in one process, with a purely differential oracle: stdout bytes, exit status and every field of every returned error must equal the canonical run's. Needs no model of actionlint, so it cannot false-alarm on a deterministic program; exploration is the level because schedules and orders are sampled.", "DESIGN.md section 4 (C02)"),
+   note="Trusts: the simulated sync/x-sync/os models and map-order instrumentation (69 of 70 sites; the pointer-keyed one keeps native order); harness determinism is self-tested on every run (same seeds in separate processes under GOMAXPROCS 1/4/16). Known finding: which call site reports a local callee's own defect (known_findings.json).",
+   technique="deterministic simulation: seeded scheduler + seeded map-iteration order + differential oracle against the canonical run, minimised replay"),
+ "C09": dict(
+   level=("exploration", "Seeded search over workflows composed from independently chosen job groups (mined from the repository's testdata and hand-written) x job visiting orders and all other map-iteration orders; per-job diagnostics are compared with the executable reference 'the group linted alone', plus step insertion/deletion checks inside a job. The history of rule-internal state before a job is what the simulator varies; it is sampled, hence exploration.", "DESIGN.md section 4 (C09)"),
+   note="Trusts: map-order instrumentation, yaml.v3-based block extraction, the reference 'linted alone on the canonical run'. Job groups never reference defective callees (reported once per run is C10's business); cyclic-dependency diagnostics are excluded (exactly one per workflow is C18's).",
+   technique="deterministic simulation: seeded map-iteration/job-visit order over composed workloads, executable reference model (solo lint), minimised replay"),
  "C18": dict(
    level=("exploration", "Seeded search over needs graphs x map-iteration orders of the rule's node map, resolve loop and job visiting order, executed by the real rule under the simulator's controlled map order; every run is compared with an independent graph reference model (dangling set, has-cycle, validity of the printed cycle) and must terminate. Exploration is the right level: the order dimension is what tests cannot reach, and it is sampled, not enumerated.", "DESIGN.md section 4 (C18)"),
    note="Trusts: the map-order instrumentation (simgen rewrite of map ranges into simrt.Iter), the reference graph model in harness/prop_c18.go, the workload generator's coverage of graph shapes. Not claimed: exhaustive enumeration up to 5 jobs.",
